@@ -174,3 +174,21 @@ Definition methods_diff (x : list (string * list (string * mshape))) : list (str
 
 Definition methods_agree (x : list (string * list (string * mshape))) : bool :=
   Nat.eqb (List.length x) (List.length canonical) && match methods_diff x with [] => true | _ => false end.
+
+(* intermediate states: the state after every operation, and checkpoints (operation index, recorded
+   state of every member at that moment) compared exactly like the final state *)
+Fixpoint states (c : gcls) (e : env) (g : group) (ops : list op) : list group :=
+  match ops with
+  | [] => []
+  | o :: t => let g1 := fst (step c e g o) in g1 :: states c e g1 t
+  end.
+
+Definition check_points (c : gcls) (sts : list group) (cps : list (nat * list snap)) : bool :=
+  forallb (fun cp => match nth_error sts (fst cp) with
+                     | Some g => forallb2 (snap_ok c) g (snd cp)
+                     | None => false
+                     end) cps.
+
+Definition check_case_cp (c : gcls) (e : env) (ops : list op) (impl : list res) (final : list snap)
+           (cps : list (nat * list snap)) : bool :=
+  check_case c e ops impl final && check_points c (states c e [] ops) cps.
